@@ -375,7 +375,9 @@ Fracs == {R(0), Q(1, 4), Q(1, 2), Q(3, 4), R(1)}
 Loads == {R(0), R(2), R(4)}
 Flows == {R(0), Q(1, 200), Q(1, 2), R(2)}   \* 1/200 m3/s: a trickle BELOW the minimum volume as a rate but above it as a volume when DeltaT = 4
 Vols == {R(0), R(10)}                     \* incl. an empty store (below the minimum volume when there is no outflow)
-Scales == {R(0), Q(1, 2), R(2), R(3)}
+\* scale factors: 0 and 1 (values at which an implementation may be tempted to skip the pass), ordinary ones, and
+\* 2^-27 = 7.45e-9 -- a genuine factor of the size of a unit conversion (mg -> t is 1e-9), exact in binary
+Scales == {R(0), Q(1, 2), R(1), R(2), R(3), Q(1, 134217728)}
 SeriesOf(S, n) == [1..n -> S]
 TT == 2
 TTR == IF Grid = "small" THEN 2 ELSE 4        \* series length of the routing cases
